@@ -1278,6 +1278,19 @@ func witnessSection(run *hx.Run) {
 				Failover: map[string]structs.ServiceResolverFailover{"*": {Datacenters: []string{"dc2"}}}}),
 			upsertCE(&structs.ServiceResolverConfigEntry{Kind: structs.ServiceResolver, Name: "db",
 				Redirect: &structs.ServiceResolverRedirect{Service: "api", Datacenter: "dc2"}})),
+		// a peer-exported L4 chain may not gain new targets: the refusal names the new target, picked by
+		// ranging over the map newSpiffeIDs (validateProposedConfigEntryInServiceGraph); with failover
+		// targets excluded and no splitters on L4 there is one candidate, then two writes that add one each
+		mk("peer-export-l4",
+			upsertCE(&structs.ExportedServicesConfigEntry{Name: "default", Services: []structs.ExportedService{
+				{Name: "db", Consumers: []structs.ServiceConsumer{{Peer: "peer-a"}}}, {Name: "web", Consumers: []structs.ServiceConsumer{{Peer: "peer-b"}}}}}),
+			upsertCE(&structs.ServiceResolverConfigEntry{Kind: structs.ServiceResolver, Name: "db",
+				Redirect: &structs.ServiceResolverRedirect{Service: "api"}}),
+			upsertCE(&structs.ServiceResolverConfigEntry{Kind: structs.ServiceResolver, Name: "api",
+				Redirect: &structs.ServiceResolverRedirect{Service: "cache"}}),
+			upsertCE(&structs.ServiceResolverConfigEntry{Kind: structs.ServiceResolver, Name: "web",
+				DefaultSubset: "v1", Subsets: map[string]structs.ServiceResolverSubset{"v1": {Filter: "Service.Meta.v == 1"}, "v2": {Filter: "Service.Meta.v == 2"}},
+				Failover: map[string]structs.ServiceResolverFailover{"*": {Targets: []structs.ServiceResolverFailoverTarget{{Service: "api"}, {Service: "queue"}}}}})),
 	}
 	for _, h := range hs {
 		a := runHistory(h, 0, 1, true)
@@ -1286,6 +1299,16 @@ func witnessSection(run *hx.Run) {
 			fs = compare(h, a, runHistory(h, k+2, 1, true), fmt.Sprintf("replica A%d (same process)", k), true)
 		}
 		run.Tag(fmt.Sprintf("%s:agree=%v", h.profile, len(fs) == 0))
+		for j, res := range a.res {
+			switch {
+			case strings.Contains(res, "cannot introduce new discovery chain targets"):
+				run.Tag(fmt.Sprintf("%s:entry%d:refused-new-target", h.profile, j))
+			case strings.Contains(res, "peer exported service"):
+				run.Tag(fmt.Sprintf("%s:entry%d:refused-unsafe-for-peer-export", h.profile, j))
+			case strings.HasPrefix(res, "err<"):
+				run.Tag(fmt.Sprintf("%s:entry%d:other-error", h.profile, j))
+			}
+		}
 		for _, f := range fs {
 			run.Violate(f.sig, "fixed witness: "+f.desc, f.replay)
 		}
